@@ -49,6 +49,8 @@ type xwResult struct {
 }
 
 // runXW drives a real xflate.Writer. sink==nil uses a plain buffer.
+var xwCopyTurn int
+
 func runXW(cfg xwCfg, ops []xwOp, sink io.Writer, buf *bytes.Buffer) (res xwResult) {
 	defer func() {
 		if p := recover(); p != nil {
@@ -66,7 +68,19 @@ func runXW(cfg xwCfg, ops []xwOp, sink io.Writer, buf *bytes.Buffer) (res xwResu
 	for _, o := range ops {
 		switch o.Kind {
 		case 'w':
-			n, err := xw.Write(o.Data)
+			var n int
+			var err error
+			xwCopyTurn++
+			if xwCopyTurn%3 == 0 && len(o.Data) > 0 && len(o.Data) < 30000 {
+				// the same bytes handed over through io.Copy from a source that returns its last bytes
+				// together with io.EOF (as decompressors and HTTP bodies do): io.Copy discovers an
+				// io.ReaderFrom on the Writer if it has one; otherwise this is one Write call
+				var c int64
+				c, err = io.Copy(xw, &vhlib.ReadOnly{B: o.Data, WithEOF: true})
+				n = int(c)
+			} else {
+				n, err = xw.Write(o.Data)
+			}
 			res.PerOp = append(res.PerOp, fmt.Sprintf("%d:%s", n, vhlib.ErrClass(err)))
 			if n > 0 && n <= len(o.Data) {
 				res.Written = append(res.Written, o.Data[:n]...)
